@@ -54,7 +54,9 @@ def run(ctx):
     # each verdict belongs to its own predicate and its own candidate
     preds = ["matchLength == 1", "matchLength == 2", "matchLength > 1", "match == 'a'", "match != 'ab'", "match < 'b'", "false", "true", "(match % 2) == 0", "(match % 3) == 0"]
     pbodies = ["at least 1 letter", "at least 1 digit", "at least 1 in 'a', 'b'", "any maybe any"]
-    ptexts = [t for t in texts if len(t) <= 3] + ["4 9 8 12 7 10", "9y 6y 3x", "12 13 4 144", "ab a b aab", "a1 22 b 333"]
+    ptexts = [t for t in texts if len(t) <= 3] + ["4 9 8 12 7 10", "9y 6y 3x", "12 13 4 144", "ab a b aab", "a1 22 b 333",
+                                                  # numerals a predicate computes with: leading zeros, signs, digits 8 and 9 (a decimal reading, whatever the spelling)
+                                                  "010 20 7", "08 09 007 0100", "0x10 0b11 1_000", "00 0 012 018"]
     pairs = [(a, b) for a in preds for b in preds if a != b]
     if quick:
         pairs = ctx.rng.sample(pairs, 24)
